@@ -766,6 +766,19 @@ pub fn from_entry<T: Object>(p: Primitive, resolve: &impl Resolve) -> Result<Opt
     }
 }
 
+/// Takes an entry out of `dict` with references followed; `None` when the entry is absent or refers to
+/// a missing object (which is a reference to null).
+pub fn take_entry(dict: &mut Dictionary, key: &str, resolve: &impl Resolve) -> Result<Option<Primitive>> {
+    match dict.remove(key) {
+        Some(Primitive::Reference(r)) => match resolve.resolve(r) {
+            Ok(p) => Ok(Some(p)),
+            Err(ref e) if e.is_missing_object(r.id) => Ok(None),
+            Err(e) => Err(e)
+        },
+        p => Ok(p)
+    }
+}
+
 impl<T: Object> Object for Option<T> {
     fn from_primitive(p: Primitive, resolve: &impl Resolve) -> Result<Self> {
         match p {
